@@ -754,7 +754,10 @@ func newDsrc() *dsrc {
 
 // dinfo allocates a fresh record on every call
 func dinfo(pid int, t int64, lag int, salt int) *model.ProviderInfo {
-	pi := &model.ProviderInfo{AddrInfo: pcdrv.AddrInfo(pid, pid), LastAdvertisement: pcdrv.VersionCid(salt*100000 + int(t)*100 + pid),
+	// (the provider advertises one address twice, as happens)
+	ai := pcdrv.AddrInfo(pid, pid)
+	ai.Addrs = append(append(ai.Addrs, pcdrv.Addr(pid)...), pcdrv.Addr(700+pid)...)
+	pi := &model.ProviderInfo{AddrInfo: ai, LastAdvertisement: pcdrv.VersionCid(salt*100000 + int(t)*100 + pid),
 		LastAdvertisementTime: time.Unix(timeBase+t, 0).UTC().Format(time.RFC3339)}
 	// a listing is heterogeneous: odd providers have chain-level extended providers, every
 	// fourth also contextual ones, even providers none
@@ -1381,6 +1384,70 @@ func directedMissThenNewestFails(name string) Directed {
 	return d
 }
 
+// (i) consumers of lookup results never change the cache: the real find client
+// (find/client DHashClient.FindAsync) is run, concurrently with refreshes, over a cache
+// whose records list an address twice; the cached record and a record a caller already
+// holds stay exactly as the source delivered them (the race detector watches as well)
+func directedFindLeavesCacheUntouched(name string) Directed {
+	d := Directed{Name: name}
+	src := newDsrc()
+	src.salt = 8
+	src.listed[dP] = 1
+	src.listed[dQ] = 1
+	srv := httptest.NewServer(http.HandlerFunc(func(w http.ResponseWriter, r *http.Request) {
+		w.Header().Set("Content-Type", "application/json")
+		infos, _ := src.FetchAll(r.Context())
+		json.NewEncoder(w).Encode(infos)
+	}))
+	defer srv.Close()
+	dh := pcdrv.NewMemDH()
+	mh := pcdrv.TestMultihash(7)
+	dh.Put(mh, pcdrv.Peer(dP), []byte(grCtx), []byte{1})
+	dh.Put(mh, pcdrv.Peer(dQ), []byte(grCtx), []byte{2})
+	cl := pcdrv.NewFindClient(dh, srv.URL)
+	js := func(pi *model.ProviderInfo) string { b, _ := json.Marshal(pi); return string(b) }
+	held, _ := cl.PCache().Get(context.Background(), pcdrv.Peer(dP))
+	if held == nil {
+		d.Failures = append(d.Failures, "setup: the provider was not cached")
+		return d
+	}
+	before := js(held)
+	var wg sync.WaitGroup
+	for g := 0; g < 4; g++ {
+		wg.Add(1)
+		go func() {
+			defer wg.Done()
+			for k := 0; k < 15; k++ {
+				if resp, err := cl.Find(context.Background(), mh); err != nil || len(resp.MultihashResults) == 0 {
+					return
+				}
+			}
+		}()
+	}
+	wg.Add(1)
+	go func() {
+		defer wg.Done()
+		for k := 0; k < 8; k++ {
+			_ = cl.PCache().Refresh(context.Background())
+			for _, pi := range cl.PCache().List() {
+				_ = js(pi) // a reader of the published records
+			}
+		}
+	}()
+	wg.Wait()
+	if now := js(held); now != before {
+		d.Failures = append(d.Failures, fmt.Sprintf("held-record-changed: a record the caller held changed while other callers ran Find: %s became %s", before, now))
+	}
+	for _, p := range []int{dP, dQ} {
+		pi, _ := cl.PCache().Get(context.Background(), pcdrv.Peer(p))
+		want := js(dinfo(p, 1, 0, src.salt))
+		if pi == nil || js(pi) != want {
+			d.Failures = append(d.Failures, fmt.Sprintf("cached-record-changed-by-consumer: after the Finds the record cached for provider %d is %s; the source delivered %s", p, js(pi), want))
+		}
+	}
+	return d
+}
+
 func runDirected(only string) []Directed {
 	var out []Directed
 	add := func(name string, f func() Directed) {
@@ -1425,6 +1492,7 @@ func runDirected(only string) []Directed {
 	add("records/miss-fetched-then-newest-source-fails", func() Directed {
 		return directedMissThenNewestFails("records/miss-fetched-then-newest-source-fails")
 	})
+	add("consumers/find-leaves-cache-untouched", func() Directed { return directedFindLeavesCacheUntouched("consumers/find-leaves-cache-untouched") })
 	add("records/lagging-source", func() Directed { return directedLaggingSource("records/lagging-source", false) })
 	add("records/source-rolled-back", func() Directed { return directedLaggingSource("records/source-rolled-back", true) })
 	add("records/http-listing-shifts", func() Directed { return directedHTTPListingShifts("records/http-listing-shifts") })
